@@ -133,6 +133,15 @@ func (g *pgen) objectSchema(depth int, compose bool) (jmap, func() interface{}) 
 			delete(s, "additionalProperties")
 		}
 	}
+	// a "not" the instances satisfy, next to the defaults: its branch reports nothing, and must not change what the other
+	// keywords record
+	if g.rng.Intn(4) == 0 {
+		if g.rng.Intn(2) == 0 {
+			s["not"] = jmap{"required": []interface{}{"legacy-member"}}
+		} else {
+			s["not"] = jmap{"type": "string"}
+		}
+	}
 	gen := func() interface{} {
 		m := jmap{}
 		for k, pg := range gens {
